@@ -106,9 +106,20 @@ class StubMeasurement:
 
 
 class StubObservation:
-    __slots__ = ("julian_date", "sensor_eci", "measurement", "r_matrix", "measurement_states")
+    """Carries the public attributes of a real Observation (identity fields included, so that a filter which
+    legitimately reads e.g. ``sensor_id`` does not trip over the stub); the stable per-observation identity is the
+    measurement's label prefix."""
+
+    __slots__ = ("julian_date", "sensor_eci", "measurement", "r_matrix", "measurement_states", "sensor_id", "target_id", "sensor_type")
 
     def __init__(self, measurement, r_matrix, measurement_states, julian_date=JD0, sensor_eci=None):
+        import zlib
+
+        labels = getattr(measurement, "_labels", None) or ["m0"]
+        prefix = str(labels[0])
+        self.sensor_id = 20000 + zlib.crc32(prefix.encode()) % 10000
+        self.target_id = 10001
+        self.sensor_type = "AdvRadar"
         self.julian_date = julian_date
         self.sensor_eci = np.zeros(6) if sensor_eci is None else np.asarray(sensor_eci, dtype=float)
         self.measurement = measurement
